@@ -84,12 +84,18 @@ fn main() {
         "C03" => ("fault_enumeration", props::c03::run(&ctx)),
         "C04" => ("model_checking", props::c04::run(&ctx)),
         "C05" => ("model_checking", props::c05::run(&ctx)),
+        "C06" => ("model_checking", props::c06::run(&ctx)),
         "C07" => ("model_checking", props::c07::run(&ctx)),
         "C08" => ("fault_enumeration", props::c08::run(&ctx)),
         "C09" => ("model_checking", exhaust::seqnr::run(&ctx)),
+        "C10" => ("model_checking", props::c10::run(&ctx)),
         "C11" => ("model_checking", exhaust::wire::run(&ctx)),
+        "C14" => ("model_checking", props::c14::run(&ctx)),
         "C15" => ("model_checking", exhaust::cubic::run(&ctx)),
         "C16" => ("model_checking", exhaust::rtte::run(&ctx)),
+        "C17" => ("model_checking", props::c17::run(&ctx)),
+        "C18" => ("model_checking", props::c18::run(&ctx)),
+        "C19" => ("model_checking", props::c19::run(&ctx)),
         _ => usage(),
     };
     std::process::exit(finish(&ctx, level, out));
